@@ -69,9 +69,23 @@ def parseVal (ss : Sess) (v : String) : Option (Option Bytes) :=
   else if v = "rawof1" then some ss.st.m1.raw
   else parseOptBytes v
 
+/-- outcome of a library call supplied by the harness: `ok:<hex>` or `err` (the library raised) -/
+def parseLib (s : String) : Option (Option Bytes) :=
+  if s = "err" then some none
+  else if s.startsWith "ok:" then (hexOr (s.drop 3).toString).map some
+  else none
+
 def c31Step (s : Sess) (line : String) : Sess × String :=
   match fields line with
   | ["reset"] => (⟨init, []⟩, "ok")
+  -- `own <custom_decode key> <x> <lib1> <lib2>`: mitmproxy's own decoder function for that key, as transcribed
+  | ["own", n, x, l1, l2] =>
+    match hexOr n, hexOr x, parseLib l1, parseLib l2 with
+    | some n, some x, some l1, some l2 =>
+      (s, match decFnOf n with
+          | some fn => showRes (ownDecodeWith fn x l1 l2)
+          | none => "nofn")
+    | _, _, _, _ => bad s
   | ["dec", x, c, e, f] =>
     match hexOr x, hexOr c, hexOr e, parseFresh f with
     | some x, some c, some e, some f => doOp s (.dec x c e) f
